@@ -324,6 +324,8 @@ func setAt(root interface{}, path jpath, v interface{}) interface{} {
 
 var hostileStrings = []string{".", "..", "$", "$1", "a..$1", ".$1", "$1.", "a.$.b", "$$", "*", ">", ">.a", "a b c", " ", "*.>", "a.*.$2.>",
 	"-", "S", "SU", strings.Repeat("x.", 300) + "$1", "\x00", "é.$1..", "local..$1",
+	// reference tokens with a sign, leading zeros or too many digits
+	"my.$-1", "$-0.x", "a.$+1", "$00", "$99999999999999999999.b", "$-9223372036854775808", "$1.$1.$1",
 	// long texts of multi-byte characters (many bytes, few runes), with and without what makes a validator echo them
 	"orders. " + strings.Repeat("世界", 200), strings.Repeat("é", 700) + "..$1", strings.Repeat("\U0001F600", 300) + " x", strings.Repeat("世", 1100)}
 
